@@ -25,7 +25,7 @@ EXPLANATION = (
 FUNCTIONS = ["ConvertFuncToX86FuncPass", "ConvertArithToX86Pass", "reconcile-unrealized-casts", "X86RegisterAllocator / x86-allocate-registers", "X86PrologueEpilogueInsertion",
              "x86 op classes (operand conventions of rs/ri/ds/di/dm/ms/push/pop forms)"]
 ASSUMPTIONS = ["x86-64 integer subset semantics vx/x86sem.py (mov/add/sub/imul/and/or/xor/lea/push/pop; mov r64, imm32 sign-extends)", "SysV: args in rdi,rsi,rdx,rcx,r8,r9; result in rax; callee-saved rbx,rbp,r12-r15"]
-OUTSIDE = ["that the text assembles with the system assembler and the native run (the text of each CONCRETE immediate and memory offset, produced by the real assembly_arg_str / assembly_line, is read back and must denote the operand the reference machine executes; text rendered from a symbolic 64-bit immediate is not modelled)", "stack-passed arguments", "i32 functions", "floating point / AVX ops"]
+OUTSIDE = ["that the text assembles with the system assembler and the native run (the text of each CONCRETE immediate and memory offset, produced by the real assembly_arg_str / assembly_line, is read back and must denote the operand the reference machine executes; text rendered from a symbolic 64-bit immediate is not modelled)", "stack-passed arguments", "i32 functions other than the live*_i32 / const_i32 programs; i8/i16", "floating point / AVX ops"]
 STUBS = []
 
 PIPE = "convert-func-to-x86-func,convert-arith-to-x86,reconcile-unrealized-casts,canonicalize,dce,x86-allocate-registers,canonicalize,x86-prologue-epilogue-insertion"
@@ -55,10 +55,14 @@ PROGRAMS = {
 for _k in range(4, 12):
     PROGRAMS[f"live{_k}"] = (3, _live(_k))
     PROGRAMS[f"live{_k}_6args"] = (6, _live(_k, 6))
+# i32 functions: values live in the 32-bit names (ebx, r13d, ...) of the same physical registers, whose 64-bit contents the callee must preserve
+for _k in range(3, 8):
+    PROGRAMS[f"live{_k}_i32"] = (3, _live(_k).replace("i64", "i32"))
+PROGRAMS["const_i32"] = (2, "%k = arith.constant -100000 : i32\n %s = arith.addi %a0, %k : i32\n %r = arith.muli %s, %a1 : i32")
 
 
 def bounds(tier):
-    return {"programs": sorted(PROGRAMS), "arguments": "1-6 x i64", "constants": "symbolic 64 bit"}
+    return {"programs": sorted(PROGRAMS), "arguments": "1-6 x i64, 2-3 x i32 (upper register halves arbitrary)", "constants": "symbolic 64 bit"}
 
 
 def obligations(tier):
@@ -83,8 +87,9 @@ def harness(ob, concrete=None):
     def h(ex):
         from xdsl.transforms import get_all_passes
 
-        args_sig = ", ".join(f"%a{i}: i64" for i in range(nargs))
-        text = f"builtin.module {{ func.func @f({args_sig}) -> i64 {{\n {body}\n func.return %r : i64\n}} }}"
+        ty = "i32" if ob["prog"].endswith("_i32") else "i64"
+        args_sig = ", ".join(f"%a{i}: {ty}" for i in range(nargs))
+        text = f"builtin.module {{ func.func @f({args_sig}) -> {ty} {{\n {body}\n func.return %r : {ty}\n}} }}"
         m = Parser(ctx(), text).parse_module()
         for op in list(m.walk()):
             if isinstance(op, arith.ConstantOp) and isinstance(op.value.value.data, int) and op.value.value.data in (1000, 1001):
@@ -107,6 +112,12 @@ def harness(ob, concrete=None):
         xf = next(o for o in m.walk() if isinstance(o, x86_func.FuncOp))
         mach = x86sem.Machine("x")
         for r_, a in zip(x86sem.ARG_REGS, args):
+            if a.size() < 64:
+                # a 32-bit argument arrives in the low half; the upper half of the register is unspecified (arbitrary)
+                up = z3.BitVec(f"upper_{r_}", 64 - a.size()) if concrete is None else z3.BitVecVal(concrete.get(f"upper_{r_}", 0), 64 - a.size())
+                if concrete is None:
+                    ex.named[f"upper_{r_}"] = SymInt.from_bv(up)
+                a = z3.Concat(up, a)
             mach.r[r_] = a
             mach.init[r_] = a
         for r_ in x86sem.CALLEE_SAVED + ["rsp"]:
@@ -129,7 +140,8 @@ def harness(ob, concrete=None):
         if not done:
             raise tv.InvalidIR("no ret")
         res, dfd = before[0][0], before[1]
-        props = [mach.get("rax") == res, mach.get("rsp") == mach.init["rsp"]] + list(x86sem.EMIT)
+        rax = mach.get("rax")
+        props = [(rax if res.size() == 64 else z3.Extract(res.size() - 1, 0, rax)) == res, mach.get("rsp") == mach.init["rsp"]] + list(x86sem.EMIT)
         for r_ in x86sem.CALLEE_SAVED:
             props.append(mach.get(r_) == mach.init[r_])
         probe = z3.BitVec("probe_addr", 64) if concrete is None else z3.BitVecVal(concrete.get("probe_addr", 0), 64)
